@@ -94,6 +94,18 @@ structure Sh where
   panic : Bool
   a : SpscA.Sh
   simBad : Bool
+  -- ghost: the block chain. `chain k` = the block holding the logical slots `k*B … k*B+B-1`, `num` its inverse on the
+  -- live blocks; `fk / lk / hk / tk` = the numbers of `first / last_head / head.block / tail.block`; the live blocks
+  -- are `chain fk … chain (te-1)`; `ph`: 0 before `Queue::new`, 1 in use, 2 Drop frees the blocks, 3 dropped.
+  -- Read by ghost updates only.
+  chain : Nat → Bid
+  num : Bid → Nat
+  fk : Nat
+  lk : Nat
+  hk : Nat
+  tk : Nat
+  te : Nat
+  ph : Nat
 
 def touch (s : Sh) (b : Bid) : Sh := { s with uaf := s.uaf || !s.live b }
 def alloc (s : Sh) : Sh := { s with nb := s.nb + 1, live := upd s.live s.nb true, next := upd s.next s.nb none }
@@ -121,12 +133,18 @@ def pstepC (s : Sh) : PPc → Env → Option (Sh × PPc × AAct)
       match s.next f with
       | some nx => some (s, .aSetFirst l f nx, none)
       | none => some ({ s with panic := true }, .aSetFirst l f f, none)
-  | .aSetFirst l f nx, _ => some ({ s with first := nx }, .pLink l f, none)
+  | .aSetFirst l f nx, _ =>
+      -- ghost: the recycled block `f` becomes block number `tk + 1`
+      some ({ s with first := nx, fk := s.fk + 1, chain := upd s.chain (s.tk + 1) f, num := upd s.num f (s.tk + 1),
+                     te := s.te + 1 }, .pLink l f, none)
   | .aHead l f, _ => some (s, .aSetLast l f s.headBlk, none)
-  | .aSetLast l f hb, _ => some ({ s with lastHead := hb }, if f ≠ hb then .aNext l f else .aAlloc l, none)
-  | .aAlloc l, _ => some (alloc s, .pLink l s.nb, none)
+  | .aSetLast l f hb, _ =>
+      some ({ s with lastHead := hb, lk := s.num hb }, if f ≠ hb then .aNext l f else .aAlloc l, none)
+  | .aAlloc l, _ =>
+      some ({ alloc s with chain := upd s.chain (s.tk + 1) s.nb, num := upd s.num s.nb (s.tk + 1), te := s.te + 1 },
+            .pLink l s.nb, none)
   | .pLink l nt, _ => let s := touch s l.tb; some ({ s with next := upd s.next l.tb (some nt) }, .pSetBlk l nt, none)
-  | .pSetBlk l nt, _ => some ({ s with tailBlk := nt }, .pPub l.v l.pi, none)
+  | .pSetBlk l nt, _ => some ({ s with tailBlk := nt, tk := s.tk + 1 }, .pPub l.v l.pi, none)
   | .pPub _ pi, _ => some ({ s with tailIdx := pi + 1 }, .pRet, some .go)
   | .pRet, _ => some (s, .idle, some .go)
 
@@ -143,7 +161,9 @@ def cstepC (s : Sh) : CPc → Env → Option (Sh × CPc × AAct)
   | .nAlloc, _ =>
       let b := s.nb
       some ({ alloc s with tailIdx := 0, tailBlk := b, headIdx := 0, headBlk := b, first := b, lastHead := b,
-                           created := true, alive := true }, .nRet, none)
+                           created := true, alive := true,
+                           chain := upd s.chain 0 b, num := upd s.num b 0, fk := 0, lk := 0, hk := 0, tk := 0, te := 1,
+                           ph := 1 }, .nRet, none)
   | .nRet, _ => some (s, .idle, none)
   -- pop
   | .oIdx, _ => some (s, .oTail s.headIdx, none)
@@ -158,7 +178,7 @@ def cstepC (s : Sh) : CPc → Env → Option (Sh × CPc × AAct)
       match s.next hb with
       | some nh => some (s, .oSetBlk nh hi v, none)
       | none => some ({ s with panic := true }, .oSetBlk hb hi v, none)
-  | .oSetBlk nh hi v, _ => some ({ s with headBlk := nh }, .oStore hi v, none)
+  | .oSetBlk nh hi v, _ => some ({ s with headBlk := nh, hk := s.hk + 1 }, .oStore hi v, none)
   | .oStore hi v, _ => some ({ s with headIdx := hi + 1 }, .ret (.pop (some v)), some .go)
   -- peek
   | .kIdx, _ => some (s, .kTail s.headIdx, none)
@@ -182,19 +202,19 @@ def cstepC (s : Sh) : CPc → Env → Option (Sh × CPc × AAct)
       match s.next hb with
       | some nh => some (s, .bSetBlk d nh e vals, none)
       | none => some ({ s with panic := true }, .bSetBlk d hb e vals, none)
-  | .bSetBlk d nh e vals, _ => some ({ s with headBlk := nh }, .bStore d e vals, none)
+  | .bSetBlk d nh e vals, _ => some ({ s with headBlk := nh, hk := s.hk + 1 }, .bStore d e vals, none)
   | .bStore d e vals, _ => some ({ s with headIdx := e }, if d then .bIdx true else .ret (.bulk vals), some .go)
   -- Drop after `while !self.bulk_pop().is_empty() {}`
   | .dHead, _ => some (s, .dTail s.headBlk, none)
   | .dTail hb, _ => some ({ s with panic := s.panic || (s.tailBlk != hb) }, .dFirst hb, none)
-  | .dFirst hb, _ => some (s, if s.first = hb then .dFreeH hb else .dNext s.first hb, none)
+  | .dFirst hb, _ => some ({ s with ph := 2 }, if s.first = hb then .dFreeH hb else .dNext s.first hb, none)
   | .dNext f tb, _ =>
       let s := touch s f
       match s.next f with
       | some nx => some (s, .dFree f nx tb, none)
       | none => some ({ s with panic := true }, .dFreeH tb, none)
-  | .dFree f nx tb, _ => some (free s f, if nx = tb then .dFreeH tb else .dNext nx tb, none)
-  | .dFreeH hb, _ => some (free s hb, .ret .unit, none)
+  | .dFree f nx tb, _ => some ({ free s f with fk := s.fk + 1 }, if nx = tb then .dFreeH tb else .dNext nx tb, none)
+  | .dFreeH hb, _ => some ({ free s hb with te := s.te - 1, ph := 3 }, .ret .unit, none)
   | .ret _, _ => some (s, .idle, some .go)
 
 def projP : PPc → SpscA.PPc
@@ -258,7 +278,8 @@ def step (s : St) : Act → Option St
 def initSh (B : Nat) : Sh :=
   { B := B, created := false, alive := false, nb := 0, live := fun _ => false, next := fun _ => none, val := fun _ _ => 0,
     tailIdx := 0, tailBlk := 0, headIdx := 0, headBlk := 0, first := 0, lastHead := 0,
-    uaf := false, dfree := false, panic := false, a := SpscA.initSh B, simBad := false }
+    uaf := false, dfree := false, panic := false, a := SpscA.initSh B, simBad := false,
+    chain := fun _ => 0, num := fun _ => 0, fk := 0, lk := 0, hk := 0, tk := 0, te := 0, ph := 0 }
 
 def init (B : Nat) : St := { sh := initSh B, pp := .idle, cp := .idle, app := .idle, acp := .idle }
 
